@@ -82,6 +82,7 @@ fn main() {
         "C20" => props_e1::c20(&args),
         "DBG" => props_e1::dbg(&args),
         "E2DBG" => props_e2::dbg(&args),
+        "LEAK" => props_e2::leak(&args),
         _ => {
             eprintln!("unknown property id {}", id);
             std::process::exit(2)
